@@ -128,8 +128,9 @@ PREDICATES = {
 
 def setup(ctx):
     import pytket
+    from discopy import quantum
     from discopy.quantum import circuit, gates
-    _ENV.update(pytket=pytket, circuit=circuit, gates=gates)
+    _ENV.update(pytket=pytket, circuit=circuit, gates=gates, quantum=quantum)
 
 
 # -- export --------------------------------------------------------------------------
@@ -386,6 +387,64 @@ def export_history(rng, ctx, d, tk, snap, expected, n_bits, witness):
                tket=lambda: repr(again), **witness)
 
 
+def batch_history(rng, ctx, d, expected, n_bits, witness):
+    """
+    The batch forms circuit.eval(*others, backend=) and get_counts(*others,
+    backend=): every circuit of the batch is post-selected, scaled and
+    post-processed with ITS OWN side information, whatever its position.
+    """
+    q = _ENV["quantum"]
+    companions = [
+        lambda: q.Rx(0.3) >> q.Measure(),
+        lambda: q.sqrt(2) @ q.Ket(0) >> q.H >> q.Measure(),
+        lambda: q.Ket(0, 0) >> q.H @ q.X >> q.CX >> q.Measure() @ q.Bra(1),
+        lambda: q.Ket(1, 0) >> q.CX >> q.Measure(2),
+        lambda: q.scalar(0.5) @ q.Ket(0) >> q.Rx(0.25) >> q.Measure()]
+    other = companions[rng.randrange(len(companions))]()
+    m_bits = len(other.init_and_discard().cod)
+    want_other = as_array(other.init_and_discard().eval(mixed=True), m_bits)
+    d_first = rng.random() < .5
+    batch = (d, other) if d_first else (other, d)
+    wants = (expected, want_other) if d_first else (want_other, expected)
+    bits = (n_bits, m_bits) if d_first else (m_bits, n_bits)
+    history = "batch of two, circuit under test {}".format(
+        "first" if d_first else "second")
+    try:
+        results = batch[0].eval(batch[1], backend=tk_sim.ExactBackend())
+        good = isinstance(results, list) and len(results) == 2
+        values = [as_array(r, k) for r, k in zip(results, bits)] if good else []
+        good = good and all(numpy.allclose(v, w, atol=1e-7)
+                            for v, w in zip(values, wants))
+        ctx.expect("export-eval-matches-local", good, history=history,
+                   companion=lambda: safe_repr(other, 300),
+                   got=lambda: [numpy.round(v, 5).tolist() for v in values],
+                   expected=lambda: [numpy.round(w, 5).tolist() for w in wants],
+                   **witness)
+    except Exception as err:
+        ctx.fail("export-eval-matches-local", exception=type(err).__name__,
+                 message=str(err)[:300], history=history,
+                 companion=safe_repr(other, 300), **witness)
+    try:
+        counts = batch[0].get_counts(batch[1], backend=tk_sim.ExactBackend())
+        mine = counts[1 if d_first else 0]
+        table = numpy.zeros((2,) * m_bits or (1,), dtype=complex)
+        ok = all(isinstance(k, tuple) and len(k) == m_bits for k in mine)
+        if ok:
+            for k, v in mine.items():
+                table[k if m_bits else (0,)] += v
+        ctx.expect("export-counts-match-local",
+                   ok and numpy.allclose(table, want_other, atol=1e-7),
+                   history=history + " (counts of the companion)",
+                   companion=lambda: safe_repr(other, 300),
+                   counts=lambda: repr(mine)[:400],
+                   expected=lambda: numpy.round(want_other, 5).tolist(), **witness)
+    except Exception as err:
+        ctx.fail("export-counts-match-local", exception=type(err).__name__,
+                 message=str(err)[:300], history=history,
+                 companion=safe_repr(other, 300), **witness)
+    ctx.count("batch_histories")
+
+
 def export_case(rng, ctx):
     c = _ENV["circuit"]
     clean = ctx.index % 2 == 0
@@ -455,6 +514,8 @@ def export_case(rng, ctx):
     except Exception as err:
         ctx.fail("export-counts-match-local", exception=type(err).__name__,
                  message=str(err)[:300], **dict(witness, **facts))
+    if same and rng.random() < .5:
+        batch_history(rng, ctx, d, expected, n_bits, witness)
     if same:
         try:
             export_history(rng, ctx, d, tk, snap, expected, n_bits, witness)
